@@ -658,7 +658,8 @@ func (c *Conn) heartBeat(ctx context.Context) {
 		case error:
 			// TODO: should we do something here?
 		default:
-			panic(fmt.Sprintf("gocql: unknown frame in response to options: %T", resp))
+			// a frame that is no answer to OPTIONS: a failed heartbeat, not a reason to crash
+			failures++
 		}
 	}
 }
